@@ -195,6 +195,21 @@ pub mod hooks {
     pub fn stack_addr() -> u64 {
         h::STACK_ADDR.load(Relaxed)
     }
+    /// run `f` (which may execute other programs) without disturbing what the hooks have recorded
+    /// about the execution in progress: budget, count, pc fold, trace buffer and buffer addresses
+    pub fn suspended<R>(f: impl FnOnce() -> R) -> R {
+        let saved = (h::BUDGET.load(Relaxed), h::COUNT.load(Relaxed), h::PC_HASH.load(Relaxed), h::MAX_PC.load(Relaxed), h::TRACE_ON.load(Relaxed), save());
+        h::TRACE_ON.store(false, Relaxed);
+        h::BUDGET.store(u64::MAX, Relaxed);
+        let r = f();
+        h::BUDGET.store(saved.0, Relaxed);
+        h::COUNT.store(saved.1, Relaxed);
+        h::PC_HASH.store(saved.2, Relaxed);
+        h::MAX_PC.store(saved.3, Relaxed);
+        h::TRACE_ON.store(saved.4, Relaxed);
+        restore(saved.5);
+        r
+    }
     /// the addresses the last `on_start` recorded (a nested execution inside a helper overwrites them)
     pub fn save() -> [u64; 5] {
         [h::STACK_ADDR.load(Relaxed), h::MEM_ADDR.load(Relaxed), h::MEM_LEN.load(Relaxed), h::MBUFF_ADDR.load(Relaxed), h::MBUFF_LEN.load(Relaxed)]
